@@ -677,3 +677,201 @@ def assert_obligations(mir_text, lib_rs):
     if min(n.values()) == 0:
         raise Unsupported(f"Checker::assert_*: shape not recognised {n}")
     return res, {"functions": [f"checker::Checker::{k}" for k in sorted(fns)], "paths_seen": n}
+
+
+# ---- simulation.rs: check_trace_from_initial -----------------------------------------------------------------------------------
+class SimExecutor(DiscExecutor):
+    def apply_havoc(self, st, body, locals_):
+        r = super().apply_havoc(st, body, locals_)
+        for l in locals_:
+            c = st.locals.get(l)
+            if c is not None and st.heap.get(c) == ("opaque", "havoc"):
+                st.heap[c] = ("opaque", f"havoc:{l}#{next(self.fresh)}")  # distinct objects: identity is compared below
+        return r
+
+    def call(self, st, body, t):
+        f = t.args["func"]
+        if not st.frames:
+            if re.search(r"HashSet::<.*>::insert$", f):
+                b = self.fresh_bool("first_visit")
+                st.events.append(("seen_insert", b))
+                return B(b)
+            if re.search(r"Vec::<<M as Model>::Action>::is_empty$", f):
+                b = self.fresh_bool("no_action_left")
+                st.events.append(("actions_empty", b))
+                return B(b)
+        return super().call(st, body, t)
+
+
+def sim_obligations(mir_text, lib_rs):
+    """One round / one tail iteration of SimulationChecker::check_trace_from_initial, all loops havocked (the trace loop too).
+    Same property-loop obligations as check_block (tag C02/C03/C11) on the trace's current state; the tail records an
+    eventually discovery only while the bit is set, at the property's own index, guarded by "no discovery yet", and
+    (Sim-end) only when the trace ended in a dead end (no action left) or closed a cycle (state seen before in this trace)."""
+    from mir import parse_body, split_functions
+    from symex import Executor, State
+    from blockloop import natural_loops_by_dominators, _assigned
+    order = expectation_order(lib_rs)
+    A, E, S_ = order["Always"], order["Eventually"], order["Sometimes"]
+    text = None
+    for f in split_functions(mir_text):
+        h = f.split("\n", 1)[0]
+        if re.match(r"^fn (?:checker::)?simulation::<impl at src/checker/simulation\.rs[^>]*>::check_trace_from_initial\(", h):
+            text = f
+    if text is None:
+        raise Unsupported("simulation.rs check_trace_from_initial not found in the MIR")
+    dbg = {}
+    for m in re.finditer(r"debug (\w+) => _(\d+);", text):
+        dbg.setdefault(m.group(1), int(m.group(2)))
+    for need in ("state", "is_awaiting_discoveries", "target_max_depth"):
+        if need not in dbg:
+            raise Unsupported(f"simulation: local `{need}` not found")
+
+    class Ex(SimExecutor):
+        pass
+    Ex.exp_locals = frozenset(int(x) for x in re.findall(r"_(\d+) = discriminant\(\([^;]*: Expectation\)\);", text))
+    Ex.term_local, Ex.await_local = None, dbg["is_awaiting_discoveries"]
+    body = parse_body(text)
+    ex = Ex({Executor.short(body): body})
+    ex.job_types, ex.depth_idx = [], None
+    loops = natural_loops_by_dominators(body)
+
+    def calls_in(blks):
+        return [body.blocks[n].term.args["func"] for n in blks if body.blocks[n].term.kind == "call"]
+
+    def innermost(pred):
+        c = [(len(blks), h) for h, blks in loops.items() if any(pred(f) for f in calls_in(blks))]
+        return min(c)[1] if c else None
+    H_P = innermost(lambda f: re.match(r"^(move|copy) _\d+$", f) is not None and True)
+    H_T = innermost(lambda f: f.endswith("IdSet::contains"))
+    H_outer = max((len(b), h) for h, b in loops.items())[1]
+    # the property loop is the innermost loop holding a call through a bool-returning function pointer AND IdSet::remove
+    H_P = innermost(lambda f: f.endswith("IdSet::remove"))
+    if None in (H_P, H_T) or len({H_P, H_T, H_outer}) != 3:
+        raise Unsupported(f"simulation: loops not recognised (property loop {H_P}, tail loop {H_T}, trace loop {H_outer})")
+    ex.loop_havoc = {h: _assigned(body, blks) for h, blks in loops.items()}
+    ex.stop_blocks = set()
+    st = State()
+    tgt_some, tgt = z3.Bool("sim_has_target_max_depth"), z3.Int("sim_target_max_depth")
+    base = [tgt >= 1]
+    hdr = text.split("\n", 1)[0]
+    for pno in body.params:
+        if pno == dbg["target_max_depth"]:
+            st.locals[pno] = st.alloc(("opt", tgt_some, st.alloc(I(tgt))))
+        elif re.search(rf"_{pno}: &", hdr):
+            st.locals[pno] = st.alloc(("ref", st.alloc(("opaque", f"param{pno}"))))
+        else:
+            st.locals[pno] = st.alloc(("opaque", f"param{pno}"))
+    outs = ex.run(body, st, 0)
+    res = []
+
+    def add(tag, ob, r):
+        res.append({"obligation": f"simulation check_trace_from_initial: {ob}", "tag": tag, "result": "unsat" if r == z3.unsat else ("sat" if r == z3.sat else str(r))})
+
+    def must(tag, ob, g, *neg, structural_ok=None):
+        if structural_ok is True:
+            return add(tag, ob, z3.unsat)
+        if structural_ok is False:
+            return add(tag, ob, _check(base, g)[0])
+        add(tag, ob, _check(base, g, *neg)[0])
+
+    # does the property loop skip Eventually properties that have a discovery?
+    n = {"P": 0, "T": 0, "disc_P": 0, "disc_T": 0, "clear": 0}
+    feas = []
+    for i, o in enumerate(outs):
+        if o.kind == "panic":
+            continue
+        g = z3.And(*o.st.pc) if o.st.pc else z3.BoolVal(True)
+        if _check(base, g)[0] == z3.sat:
+            feas.append((i, o, g))
+    for i, o, g in feas:
+        evs = o.st.events
+        lp = [k for k, e in enumerate(evs) if e[0] == "loop"]
+        tagp = f"path {i} [" + ",".join(e[0] for e in evs if e[0] not in ("loop", "iter_next", "discr_of", "pop_some")) + f"]->{o.kind}"
+        cur_state = o.st.heap.get(o.st.locals.get(dbg["state"], -1))
+        # --- an iteration of the property loop
+        if o.kind == "cut" and o.info.get("bb") == H_P:
+            k0 = max(k for k in lp if evs[k][1] == H_P)
+            it = evs[k0:]
+            cks = [e for e in it if e[0] == "contains_key"]
+            conds = [e for e in it if e[0] == "condition"]
+            exps = [e for e in it if e[0] == "expectation"]
+            discs = [e for e in it if e[0] == "discover"]
+            clears = [e for e in it if e[0] == "ebits_remove"]
+            n["P"] += 1
+            if len(conds) > 1 or len(cks) > 1 or len(exps) > 1:
+                raise Unsupported("simulation: a property-loop iteration with several condition calls / lookups")
+            K = exps[0][1] if exps else None
+            c = conds[0][1] if conds else None
+            if not conds:
+                must("C02", f"{tagp}: P-eval: a property is skipped only if it already has a discovery", g, *([z3.Not(cks[0][1])] if cks else []))
+            else:
+                must("C03", f"{tagp}: P-polarity: the condition is evaluated on the trace's current state", g, structural_ok=(cur_state is not None and cur_state in conds[0][2]))
+            for dsc in discs:
+                n["disc_P"] += 1
+                if c is None or K is None:
+                    must("C03,C02", f"{tagp}: P-polarity: a discovery is recorded only after the property's condition was evaluated", g, structural_ok=False)
+                    continue
+                must("C03,C02", f"{tagp}: P-polarity: an always/sometimes discovery is recorded only on verdict false for Always / true for Sometimes", g,
+                     z3.Not(z3.Or(z3.And(K == A, z3.Not(c)), z3.And(K == S_, c))))
+                if cks:
+                    must("C03,C02", f"{tagp}: P-polarity: the discovery is recorded under the name of the property that was evaluated", g, structural_ok=(dsc[2] in cks[0][2]))
+            if c is not None and K is not None and not discs:
+                must("C02", f"{tagp}: P-complete: Always with verdict false / Sometimes with verdict true records a discovery", g, z3.Or(z3.And(K == A, z3.Not(c)), z3.And(K == S_, c)))
+            for cl in clears:
+                n["clear"] += 1
+                if c is None or K is None:
+                    must("C11,C03", f"{tagp}: P-clear: a bit is cleared only after the property's condition was evaluated", g, structural_ok=False)
+                    continue
+                must("C11,C03", f"{tagp}: P-clear: an eventually-bit is cleared only for an Eventually property whose condition held on this state", g, z3.Not(z3.And(K == E, c)))
+                must("C11,C03", f"{tagp}: P-index: the bit index is the property's position in the full property list", g, structural_ok=_index_source(it)[0])
+            if c is not None and K is not None and not clears:
+                must("C11,C03", f"{tagp}: P-clearall: Eventually with verdict true clears the bit", g, K == E, c)
+            aw = _val_at_end(o.st, dbg["is_awaiting_discoveries"])
+            hv = next((e[3] for e in it if e[0] == "loop"), None)
+            if aw is not None and hv is not None:
+                must("C02", f"{tagp}: P-await: an iteration never takes the awaiting flag back", g, hv, z3.Not(aw))
+                if not discs:
+                    must("C02", f"{tagp}: P-await: an iteration that leaves its property without a discovery sets the awaiting flag", g, *([z3.Not(cks[0][1])] if cks else []), z3.Not(aw))
+        # --- an iteration of the tail loop (eventually discoveries of this trace)
+        if o.kind == "cut" and o.info.get("bb") == H_T:
+            k0 = max(k for k in lp if evs[k][1] == H_T)
+            it = evs[k0:]
+            before = evs[:k0]
+            n["T"] += 1
+            ecs = [e for e in it if e[0] == "ebits_contains"]
+            cks = [e for e in it if e[0] == "contains_key"]
+            discs = [e for e in it if e[0] == "discover"]
+            # how the trace loop was left: events of the last round
+            ko = max([k for k in lp if k < k0 and evs[k][1] == H_outer], default=None)
+            rnd = before[ko:] if ko is not None else before
+            dead = [e for e in rnd if e[0] == "actions_empty"]
+            seen = [e for e in rnd if e[0] == "seen_insert"]
+            p_exit = [e for e in rnd if e[0] == "loop" and e[1] == H_P]
+            lemma = []
+            if p_exit and not [e for e in rnd if e[0] == "actions"]:
+                # left after the property loop without generating actions: "found all discoveries".  By the P-await obligations a
+                # false awaiting flag at loop exit means every property had a discovery; discoveries are never removed.
+                aw_exit = p_exit[-1][3]
+                if aw_exit is not None:
+                    lemma = [z3.Implies(z3.Not(aw_exit), ck[1]) for ck in cks]
+            for dsc in discs:
+                if _check(base, g, *lemma)[0] != z3.sat:
+                    continue
+                n["disc_T"] += 1
+                if not ecs:
+                    must("C03,C11", f"{tagp}: T-terminal: an eventually discovery is recorded only after the bit was looked up", g, structural_ok=False)
+                    continue
+                must("C03,C11", f"{tagp}: T-terminal: an eventually discovery is recorded only while the bit is still set", g, *lemma, z3.Not(ecs[0][1]))
+                must("C03,C11", f"{tagp}: T-index: the bit index is the property's position in the full property list", g, structural_ok=_index_source(it)[0])
+                if cks and dsc[2] in cks[0][2]:
+                    must("C03,C11", f"{tagp}: T-accurate: an eventually discovery is recorded only while the property has none yet (bits of decided properties go stale)", g, *lemma, cks[0][1])
+                else:
+                    must("C03,C11", f"{tagp}: T-accurate: an eventually discovery is recorded only while the property has none yet (bits of decided properties go stale)", g, structural_ok=False)
+                ok_dead = bool(dead) and _check(base, g, *lemma, z3.Not(dead[-1][1]))[0] == z3.unsat
+                ok_cycle = bool(seen) and not [e for e in rnd[rnd.index(seen[-1]):] if e[0] in ("condition", "actions")] and _check(base, g, *lemma, seen[-1][1])[0] == z3.unsat
+                must("C03,C11", f"{tagp}: Sim-end: an eventually discovery is recorded only when the trace ended in a dead end (no action left) or closed a cycle - not when the chosen successor merely left the boundary", g,
+                     structural_ok=(ok_dead or ok_cycle))
+    if min(n.values()) == 0:
+        raise Unsupported(f"simulation: shape not recognised {n}")
+    return res, {"function": body.name, "blocks": len(body.blocks), "paths": len(outs), "seen": n, "loops_havocked": [f"bb{h}" for h in sorted(loops)]}
